@@ -69,6 +69,14 @@ def translate_source():
     except Exception as e:
         open(out2, 'w').write('/-! source-level translation of server_base.py failed on this tree -/\n')
         status['Server'] = 'untranslatable: translator failed (' + type(e).__name__ + ')'
+    # so have the methods of CfgKeyData (cfgkeys.py)
+    out3 = os.path.join(LEAN, 'UbxModel', 'Gen', 'SrcCfg.lean')
+    try:
+        r = sh([PY, os.path.join(ROOT, 'tools', 'pysrc2lean_cfg.py'), REPO, out3], timeout=120)
+        status['CfgItem'] = r.stdout.strip().splitlines()[-1]
+    except Exception as e:
+        open(out3, 'w').write('/-! source-level translation of the CfgKeyData methods failed on this tree -/\n')
+        status['CfgItem'] = 'untranslatable: translator failed (' + type(e).__name__ + ')'
     return status
 
 
@@ -78,6 +86,7 @@ SRC_THEOREMS = {
     'UbxParser': ['ubx_reset', 'ubx_step', 'ubx_process', 'ubx_restart', 'ubx_empty_queue', 'ubx_set_filter', 'ubx_set_filters'],
     'NmeaParser': ['nmea_to_bin', 'nmea_step', 'nmea_process', 'nmea_restart'],
     'CfgKeyData': ['key_bits', 'key_group', 'key_item', 'key_bytes', 'key_header'],
+    'CfgItem': ['cfg_pack_value', 'cfg_pack_keyid', 'cfg_pack', 'cfg_unpack_value', 'cfg_unpack', 'cfg_from_key'],
     'Server': ['srv_check_poll', 'srv_check_ack_nak', 'srv_check_mga', 'srv_send', 'srv_wait', 'srv_set', 'srv_set_mga',
                'srv_set_mga_other_class', 'srv_fire_and_forget', 'srv_set_retries', 'srv_set_retry_delay', 'srv_poll'],
 }
@@ -87,6 +96,7 @@ TRANSFERS = {   # module -> (classes it needs, theorems)
     'TransferFrame': (['Checksum', 'UbxFrame'], ['src_to_bytes_is_wire', 'src_checksum_is_fletcher']),
     'TransferUbx': (['UbxParser', 'Checksum'], ['src_process_chunks', 'src_parser_refines_scanner']),
     'TransferNmea': (['NmeaParser'], ['src_nmea_counts_exactly']),
+    'TransferCfg': (['CfgItem', 'CfgKeyData'], ['src_item_roundtrip', 'src_unpack_dichotomy', 'src_pack_rejects_ids']),
     'TransferServer': (['Server', 'UbxParser'], ['src_set_returns_bounded', 'src_set_mga_returns_bounded', 'src_poll_returns_bounded', 'src_set_result',
                                                  'src_poll_result', 'src_set_kth', 'src_set_like_fresh', 'src_poll_like_fresh', 'src_poll_all_same']),
 }
